@@ -1,1 +1,361 @@
-/- C02 — property theorems (stub: not built yet) -/
+import Rivaas.Spec.Chain
+import Rivaas.Spec.Compose
+/-
+C02 — Handler chains run in composition order, once per position, and stop on abort.
+
+The clauses about chain *execution* are safety properties, hence prefix closed: they are proved as
+invariants of the small-step machine `Rivaas.Chain.step` that hold after **every** number of steps
+(`run cfg progs n (start cfg progs)` for all `n`), for every chain, every handler program over the
+whole act alphabet (Next, Next twice, Abort, cancel, write, return, nested calls, panics) and
+both settings of the cancellation check. No fuel caveat, no termination argument.
+-/
+namespace Rivaas.C02
+open Rivaas.Chain
+
+/-! ### the positions entered so far -/
+
+def entersOf (t : List Ev) : List Nat :=
+  t.filterMap fun e => match e with | .enter k => some k | _ => none
+
+theorem lemma_entersOf_append (a b : List Ev) : entersOf (a ++ b) = entersOf a ++ entersOf b := by
+  simp [entersOf, List.filterMap_append]
+
+@[simp] theorem lemma_entersOf_exit (t : List Ev) (k : Nat) : entersOf (t ++ [Ev.exit k]) = entersOf t := by
+  simp [entersOf]
+
+@[simp] theorem lemma_entersOf_unwound (t : List Ev) (k : Nat) : entersOf (t ++ [Ev.unwound k]) = entersOf t := by
+  simp [entersOf]
+
+@[simp] theorem lemma_entersOf_enter (t : List Ev) (k : Nat) : entersOf (t ++ [Ev.enter k]) = entersOf t ++ [k] := by
+  simp [entersOf]
+
+@[simp] theorem lemma_entersOf_pop (t : List Ev) (k : Nat) (fk : FK) : entersOf (t ++ popEv k fk) = entersOf t := by
+  cases fk <;> simp [popEv]
+
+@[simp] theorem lemma_write_trace (s : St) (c : Chunk) : (s.write c).trace = s.trace := rfl
+@[simp] theorem lemma_write_idx (s : St) (c : Chunk) : (s.write c).idx = s.idx := rfl
+@[simp] theorem lemma_write_stack (s : St) (c : Chunk) : (s.write c).stack = s.stack := rfl
+@[simp] theorem lemma_write_aborted (s : St) (c : Chunk) : (s.write c).aborted = s.aborted := rfl
+@[simp] theorem lemma_write_cancelled (s : St) (c : Chunk) : (s.write c).cancelled = s.cancelled := rfl
+
+/-- unwinding a panic enters nothing and leaves the cursor alone -/
+theorem lemma_unwind_enters (cfg : Cfg) (v : Nat) (st : List Frame) (s : St) :
+    entersOf (unwind cfg v st s).trace = entersOf s.trace ∧ (unwind cfg v st s).idx = s.idx := by
+  induction st generalizing s with
+  | nil => simp [unwind]
+  | cons f rest ih =>
+    cases f with
+    | loop => simpa [unwind] using ih s
+    | fn k fk acts =>
+      cases fk with
+      | sub => simpa [unwind] using ih s
+      | plain =>
+        have := ih { s with trace := s.trace ++ [Ev.unwound k] }
+        simpa [unwind] using this
+      | recover => simp [unwind]
+
+/-! ### every position is entered at most once -/
+
+/-- enters are strictly increasing and bounded by the cursor `c.index` -/
+def Inv (s : St) : Prop :=
+  (entersOf s.trace).Pairwise (· < ·) ∧ ∀ k ∈ entersOf s.trace, (k : Int) ≤ s.idx
+
+theorem lemma_loopHead_inv (cfg : Cfg) (progs : List Prog) (s : St)
+    (h1 : (entersOf s.trace).Pairwise (· < ·)) (h2 : ∀ k ∈ entersOf s.trace, (k : Int) < s.idx) :
+    Inv (loopHead cfg progs s) := by
+  unfold loopHead
+  split
+  · split
+    · exact ⟨h1, fun k hk => Int.le_of_lt (h2 k hk)⟩
+    · constructor
+      · show (entersOf (s.trace ++ [Ev.enter s.idx.toNat])).Pairwise (· < ·)
+        rw [lemma_entersOf_enter, List.pairwise_append]
+        refine ⟨h1, by simp, ?_⟩
+        intro a ha b hb
+        simp at hb
+        subst hb
+        have := h2 a ha
+        omega
+      · intro k hk
+        have hk' : k ∈ entersOf s.trace ++ [s.idx.toNat] := by simpa using hk
+        rw [List.mem_append] at hk'
+        cases hk' with
+        | inl h => exact Int.le_of_lt (h2 k h)
+        | inr h => simp at h; subst h; show ((s.idx.toNat : Nat) : Int) ≤ s.idx; omega
+  · exact ⟨h1, fun k hk => Int.le_of_lt (h2 k hk)⟩
+
+theorem lemma_step_inv (cfg : Cfg) (progs : List Prog) (s : St) (h : Inv s) : Inv (step cfg progs s) := by
+  obtain ⟨h1, h2⟩ := h
+  unfold step
+  split
+  · exact ⟨h1, h2⟩
+  · apply lemma_loopHead_inv
+    · exact h1
+    · intro k hk; have := h2 k hk; simp; omega
+  · exact ⟨by simpa using h1, by simpa using h2⟩
+  · split
+    · exact ⟨by simpa using h1, by simpa using h2⟩
+    · exact ⟨h1, h2⟩
+    · exact ⟨h1, h2⟩
+    · exact ⟨h1, h2⟩
+    · unfold callNext
+      apply lemma_loopHead_inv
+      · exact h1
+      · intro k hk; have := h2 k hk; simp; omega
+    · exact ⟨h1, h2⟩
+    · exact ⟨by rw [(lemma_unwind_enters _ _ _ _).1]; exact h1,
+             by rw [(lemma_unwind_enters _ _ _ _).1, (lemma_unwind_enters _ _ _ _).2]; exact h2⟩
+
+theorem lemma_run_inv (cfg : Cfg) (progs : List Prog) (n : Nat) (s : St) (h : Inv s) : Inv (run cfg progs n s) := by
+  induction n generalizing s with
+  | zero => exact h
+  | succ n ih => exact ih _ (lemma_step_inv cfg progs s h)
+
+theorem lemma_start_inv (cfg : Cfg) (progs : List Prog) : Inv (start cfg progs) := by
+  unfold start callNext
+  apply lemma_loopHead_inv <;> simp [init, entersOf]
+
+/-- **Once per position.** On every prefix of every execution of every chain, no position is
+    entered twice — however often handlers call `Next()`, also from nested calls, also after
+    `Abort()`, also when panics unwind through the chain. -/
+theorem enter_at_most_once (cfg : Cfg) (progs : List Prog) (n : Nat) :
+    (entersOf (run cfg progs n (start cfg progs)).trace).Nodup := by
+  have := (lemma_run_inv cfg progs n _ (lemma_start_inv cfg progs)).1
+  exact this.imp (fun h => Nat.ne_of_lt h)
+
+/-- **Composition order.** Positions are entered in increasing order: position `j` never starts
+    before position `i < j` has started (and by `enter_at_most_once` never again afterwards). -/
+theorem enters_increasing (cfg : Cfg) (progs : List Prog) (n : Nat) :
+    (entersOf (run cfg progs n (start cfg progs)).trace).Pairwise (· < ·) :=
+  (lemma_run_inv cfg progs n _ (lemma_start_inv cfg progs)).1
+
+/-! ### nothing starts after `Abort()` — or after the request context was cancelled while the
+    cancellation check is on -/
+
+theorem lemma_unwind_stopped (cfg : Cfg) (v : Nat) (st : List Frame) (s : St) (h : s.stopped cfg = true) :
+    (unwind cfg v st s).stopped cfg = true := by
+  induction st generalizing s with
+  | nil => simpa [unwind, St.stopped] using h
+  | cons f rest ih =>
+    cases f with
+    | loop => simpa [unwind] using ih s h
+    | fn k fk acts =>
+      cases fk with
+      | sub => simpa [unwind] using ih s h
+      | plain => exact ih _ (by simpa [St.stopped] using h)
+      | recover =>
+        simp only [unwind, St.stopped, lemma_write_aborted, lemma_write_cancelled] at h ⊢
+        cases ha : s.aborted <;> simp_all
+
+theorem lemma_loopHead_stopped (cfg : Cfg) (progs : List Prog) (s : St) (h : s.stopped cfg = true) :
+    (loopHead cfg progs s).stopped cfg = true ∧ entersOf (loopHead cfg progs s).trace = entersOf s.trace := by
+  unfold loopHead
+  split
+  · simp [h]
+  · exact ⟨h, rfl⟩
+
+theorem lemma_step_stopped (cfg : Cfg) (progs : List Prog) (s : St) (h : s.stopped cfg = true) :
+    (step cfg progs s).stopped cfg = true ∧ entersOf (step cfg progs s).trace = entersOf s.trace := by
+  unfold step
+  split
+  · exact ⟨h, rfl⟩
+  · have := lemma_loopHead_stopped cfg progs { s with idx := s.idx + 1, stack := ‹List Frame› }
+      (by simpa [St.stopped] using h)
+    simpa using this
+  · exact ⟨by simpa [St.stopped] using h, by simp⟩
+  · split
+    · exact ⟨by simpa [St.stopped] using h, by simp⟩
+    · exact ⟨by simp [St.stopped], rfl⟩
+    · refine ⟨?_, rfl⟩
+      simp only [St.stopped] at h ⊢
+      cases ha : s.aborted <;> simp_all
+    · exact ⟨by simpa [St.stopped] using h, rfl⟩
+    · unfold callNext
+      have := lemma_loopHead_stopped cfg progs
+        { s with idx := s.idx + 1, stack := Frame.fn ‹Nat› ‹FK› ‹List Act› :: ‹List Frame› }
+        (by simpa [St.stopped] using h)
+      simpa using this
+    · exact ⟨by simpa [St.stopped] using h, rfl⟩
+    · exact ⟨lemma_unwind_stopped cfg _ _ s h, (lemma_unwind_enters cfg _ _ s).1⟩
+
+/-- **Stop on abort / cancel.** Once the chain is aborted — or the request context is cancelled
+    while cancellation checks are on — no position that has not started is ever started: the
+    set of entered positions is frozen for every number of further steps, from *any* machine
+    state (in particular from every reachable one). -/
+theorem no_start_after_stop (cfg : Cfg) (progs : List Prog) (m : Nat) (s : St) (h : s.stopped cfg = true) :
+    entersOf (run cfg progs m s).trace = entersOf s.trace := by
+  induction m generalizing s with
+  | zero => rfl
+  | succ m ih =>
+    obtain ⟨h1, h2⟩ := lemma_step_stopped cfg progs s h
+    simp only [run]
+    rw [ih _ h1, h2]
+
+/-- the two halves of the statement's wording, as instances of `no_start_after_stop` -/
+theorem no_start_after_abort (cfg : Cfg) (progs : List Prog) (m : Nat) (s : St) (h : s.aborted = true) :
+    entersOf (run cfg progs m s).trace = entersOf s.trace :=
+  no_start_after_stop cfg progs m s (by simp [St.stopped, h])
+
+theorem no_start_after_cancel (cfg : Cfg) (progs : List Prog) (m : Nat) (s : St)
+    (hc : cfg.check = true) (h : s.cancelled = true) :
+    entersOf (run cfg progs m s).trace = entersOf s.trace :=
+  no_start_after_stop cfg progs m s (by simp [St.stopped, h, hc])
+
+/-- non-vacuity: the hypothesis is reachable — `[Abort; Next]` at position 1 of a 3-chain leaves the
+    machine aborted after three steps, positions 0 and 1 entered, and position 2 is never entered -/
+example :
+    let progs : List Prog := [{ acts := [.next] }, { acts := [.abort, .next] }, { acts := [.write] }]
+    (run {} progs 3 (start {} progs)).aborted = true ∧
+    entersOf (run {} progs 3 (start {} progs)).trace = [0, 1] ∧
+    entersOf (run {} progs 30 (start {} progs)).trace = [0, 1] := by decide
+
+/-- non-vacuity for cancellation, and the check really matters: with the check off the chain goes on -/
+example :
+    let progs : List Prog := [{ acts := [.cancel, .next] }, { acts := [.write] }]
+    entersOf (run { check := true } progs 30 (start { check := true } progs)).trace = [0] ∧
+    entersOf (run { check := false } progs 30 (start { check := false } progs)).trace = [0, 1] := by decide
+
+/-! ### code after `Next()` runs after all later positions have returned, in reverse order -/
+
+/-- positions of the handler activations on the machine stack, innermost first -/
+def openFrames : List Frame → List Nat
+  | [] => []
+  | Frame.fn _ .sub _ :: rest => openFrames rest
+  | Frame.fn k _ _ :: rest => k :: openFrames rest
+  | Frame.loop :: rest => openFrames rest
+
+/-- replay a trace against a bracket stack: `enter` opens, `exit` / `unwound` must close the
+    innermost open position -/
+def replay : List Ev → List Nat → Option (List Nat)
+  | [], st => some st
+  | Ev.enter k :: t, st => replay t (k :: st)
+  | Ev.exit k :: t, st => match st with
+    | k' :: st' => if k = k' then replay t st' else none
+    | [] => none
+  | Ev.unwound k :: t, st => match st with
+    | k' :: st' => if k = k' then replay t st' else none
+    | [] => none
+
+theorem lemma_replay_append (a b : List Ev) (st : List Nat) :
+    replay (a ++ b) st = (replay a st).bind (replay b) := by
+  induction a generalizing st with
+  | nil => simp [replay]
+  | cons e t ih =>
+    cases e with
+    | enter k => simp [replay, ih]
+    | exit k =>
+      cases st with
+      | nil => simp [replay]
+      | cons k' st' =>
+        by_cases hk : k = k'
+        · simp [replay, hk, ih]
+        · simp [replay, hk]
+    | unwound k =>
+      cases st with
+      | nil => simp [replay]
+      | cons k' st' =>
+        by_cases hk : k = k'
+        · simp [replay, hk, ih]
+        · simp [replay, hk]
+
+def Bracketed (s : St) : Prop := replay s.trace [] = some (openFrames s.stack)
+
+theorem lemma_loopHead_bracketed (cfg : Cfg) (progs : List Prog) (s : St) (h : Bracketed s) :
+    Bracketed (loopHead cfg progs s) := by
+  unfold loopHead
+  split
+  · split
+    · exact h
+    · unfold Bracketed at *
+      have hfk : ∀ p : Prog, p.fk ≠ FK.sub := by intro p; unfold Prog.fk; split <;> simp
+      generalize hp : (progs.getD s.idx.toNat default) = p
+      have := hfk p
+      cases hq : p.fk <;> simp_all [lemma_replay_append, replay, openFrames]
+  · exact h
+
+theorem lemma_unwind_bracketed (cfg : Cfg) (v : Nat) (st : List Frame) (s : St)
+    (h : replay s.trace [] = some (openFrames st)) : Bracketed (unwind cfg v st s) := by
+  induction st generalizing s with
+  | nil => simpa [unwind, Bracketed, openFrames] using h
+  | cons f rest ih =>
+    cases f with
+    | loop => exact ih s (by simpa [openFrames] using h)
+    | fn k fk acts =>
+      cases fk with
+      | sub => exact ih s (by simpa [openFrames] using h)
+      | plain =>
+        apply ih
+        simp only [lemma_replay_append, h, openFrames, Option.bind_some, replay, if_true]
+      | recover => simpa [unwind, Bracketed, openFrames] using h
+
+theorem lemma_openFrames_pop (k : Nat) (fk : FK) (acts : List Act) (rest : List Frame) (t : List Ev)
+    (h : replay t [] = some (openFrames (Frame.fn k fk acts :: rest))) :
+    replay (t ++ popEv k fk) [] = some (openFrames rest) := by
+  cases fk <;> simp_all [lemma_replay_append, replay, openFrames, popEv]
+
+theorem lemma_openFrames_acts (k : Nat) (fk : FK) (a b : List Act) (rest : List Frame) :
+    openFrames (Frame.fn k fk a :: rest) = openFrames (Frame.fn k fk b :: rest) := by
+  cases fk <;> simp [openFrames]
+
+theorem lemma_step_bracketed (cfg : Cfg) (progs : List Prog) (s : St) (h : Bracketed s) :
+    Bracketed (step cfg progs s) := by
+  unfold step
+  split
+  · exact h
+  · rename_i rest hst
+    apply lemma_loopHead_bracketed
+    unfold Bracketed at *
+    simpa [hst, openFrames] using h
+  · rename_i k fk rest hst
+    unfold Bracketed at *
+    rw [hst] at h
+    exact lemma_openFrames_pop k fk [] rest s.trace h
+  · rename_i k fk a as rest hst
+    unfold Bracketed at h
+    rw [hst] at h
+    have h' : replay s.trace [] = some (openFrames (Frame.fn k fk as :: rest)) := by
+      rw [h, lemma_openFrames_acts]
+    split
+    · exact lemma_openFrames_pop k fk _ rest s.trace h
+    · exact h'
+    · exact h'
+    · exact h'
+    · unfold callNext
+      apply lemma_loopHead_bracketed
+      exact h'
+    · show replay s.trace [] = some (openFrames (Frame.fn k FK.sub _ :: Frame.fn k fk as :: rest))
+      simpa [openFrames] using h'
+    · exact lemma_unwind_bracketed cfg _ _ s h'
+
+/-- **Reverse exits.** Every prefix of every execution is a prefix of a well-bracketed word whose
+    open brackets are exactly the handler activations on the stack: a handler's `exit` (the code
+    it placed after `Next()`) comes after the `exit`s of all positions entered after it — in
+    reverse order of the enters — and when the chain has finished (`stack = []`) the trace is
+    balanced. A panic closes the brackets it unwinds through (`unwound`) in the same order. -/
+theorem exits_reverse (cfg : Cfg) (progs : List Prog) (n : Nat) :
+    replay (run cfg progs n (start cfg progs)).trace [] =
+      some (openFrames (run cfg progs n (start cfg progs)).stack) := by
+  have h0 : Bracketed (start cfg progs) := by
+    unfold start callNext
+    apply lemma_loopHead_bracketed
+    simp [Bracketed, init, replay, openFrames]
+  have : ∀ (m : Nat) (s : St), Bracketed s → Bracketed (run cfg progs m s) := by
+    intro m
+    induction m with
+    | zero => intro s h; exact h
+    | succ m ih => intro s h; exact ih _ (lemma_step_bracketed cfg progs s h)
+  exact this n _ h0
+
+/-- corollary: a finished request has a balanced trace -/
+theorem finished_balanced (cfg : Cfg) (progs : List Prog) (n : Nat)
+    (h : (run cfg progs n (start cfg progs)).stack = []) :
+    replay (run cfg progs n (start cfg progs)).trace [] = some [] := by
+  rw [exits_reverse, h]; rfl
+
+/-- non-vacuity: a chain that finishes, with nested `Next`, and its balanced trace -/
+example :
+    let progs : List Prog := [{ acts := [.next, .write] }, { acts := [.call [.next, .ret], .next] }, { acts := [] }]
+    (run {} progs 30 (start {} progs)).stack = [] ∧
+    (run {} progs 30 (start {} progs)).trace = [.enter 0, .enter 1, .enter 2, .exit 2, .exit 1, .exit 0] := by decide
+
+end Rivaas.C02
